@@ -50,7 +50,7 @@ var Kinds = []string{
 	// these public entry points were never entered): the Transformer structs, the 2- and 4-component
 	// variants, line topologies, the remaining primitives, the remaining scans, glTF with materials
 	"fresh-line", "prim2", "copy2", "copy4", "clearattr", "filter2", "filter4", "normalize2", "scale2", "colorgrade",
-	"tf", "tf", "tf", "tf", "scan2", "export-gltf-mat", "modifydefault",
+	"tf", "tf", "tf", "tf", "scan2", "export-gltf-mat", "modifydefault", "weldnormal",
 }
 
 // TfCount is the number of Transformer structs "tf" chooses from (Op.X[0]).
@@ -382,6 +382,8 @@ func Apply(op Op, a, b modeling.Mesh) []modeling.Mesh {
 		return one(a.ToPointCloud())
 	case "weld":
 		return one(a.WeldByFloat3Attribute(modeling.PositionAttribute, (int(p(op, 0))%4+4)%4))
+	case "weldnormal": // welding on an attribute other than the position (normals of a faceted model, colours)
+		return one(a.WeldByFloat3Attribute(modeling.NormalAttribute, (int(p(op, 0))%4+4)%4))
 	case "unweld":
 		return one(meshops.Unweld(a))
 	case "unref":
@@ -564,6 +566,8 @@ func Pre(op Op, a, b modeling.Mesh) (ok, checked bool) {
 		return b.HasFloat1Attribute("w") && copyFits(a, b), false
 	case "weld", "nullfaces", "smooth", "smoothweld", "flat":
 		return tri && hasPos, true
+	case "weldnormal":
+		return tri && hasNrm, true
 	case "flip":
 		return tri, true
 	case "laplacian", "laplacianaxis": // the neighbour table exists for triangles and the three line topologies
